@@ -11,13 +11,17 @@ import sys
 sys.path.insert(0, V)
 
 
+# checks that have been integrated and verified to exit 0 on the unchanged tree (others stay not_applicable until they are)
+READY = set(open(os.path.join(V, 'tools', 'ready.txt')).read().split())
+
+
 def claimed():
-    """Every harness/checks/cNN.py that defines MANIFEST_ENTRY = dict(engine, technique, text, note, ref) is claimed."""
+    """Every READY harness/checks/cNN.py that defines MANIFEST_ENTRY = dict(engine, technique, text, note, ref) is claimed."""
     out = {}
     for i in range(1, 21):
         pid = 'C%02d' % i
         path = os.path.join(V, 'harness', 'checks', 'c%02d.py' % i)
-        if not os.path.exists(path):
+        if not os.path.exists(path) or pid not in READY:
             continue
         mod = importlib.import_module('harness.checks.c%02d' % i)
         e = getattr(mod, 'MANIFEST_ENTRY', None)
